@@ -84,7 +84,7 @@ func (s *Sim) buildDescs() []*grpc.ServiceDesc {
 		}
 		if kind == KUnary {
 			d.Methods = append(d.Methods, grpc.MethodDesc{MethodName: meth, Handler: func(srv any, ctx context.Context, dec func(any) error, interceptor grpc.UnaryServerInterceptor) (any, error) {
-				rs := s.lookupRPC(svc, meth)
+				rs := s.lookupRPCctx(svc, meth, ctx)
 				if rs == nil {
 					s.stray(svc, meth)
 					return nil, status.Error(99, "stray")
@@ -94,7 +94,7 @@ func (s *Sim) buildDescs() []*grpc.ServiceDesc {
 		} else {
 			d.Streams = append(d.Streams, grpc.StreamDesc{StreamName: meth, ClientStreams: kind == KClientStream || kind == KBidi, ServerStreams: kind == KServerStream || kind == KBidi,
 				Handler: func(srv any, stream grpc.ServerStream) error {
-					rs := s.lookupRPC(svc, meth)
+					rs := s.lookupRPCctx(svc, meth, stream.Context())
 					if rs == nil {
 						s.stray(svc, meth)
 						return status.Error(99, "stray")
@@ -191,6 +191,7 @@ func (s *Sim) setupEnv() {
 		case 1:
 			hopts = append(hopts, httpgrpc.ErrorRenderer(func(ctx context.Context, st *status.Status, w http.ResponseWriter) {
 				w.Header().Set("X-Custom-Renderer", "1")
+				w.Header().Set("X-Req-Ctx-Done", fmt.Sprint(ctx.Err() != nil))
 				http.Error(w, "custom: "+st.Code().String(), 418)
 			}))
 		case 2:
@@ -296,18 +297,18 @@ func (s *Sim) rpcsOnConn(p *connPair) []int {
 // ---------------------------------------------------------------------------
 // server-side interceptors (transport level and decoration level)
 
-func (s *Sim) rpcByFullMethod(fm string) *rpcState {
+func (s *Sim) rpcByFullMethod(fm string, ctx context.Context) *rpcState {
 	parts := strings.SplitN(strings.TrimPrefix(fm, "/"), "/", 2)
 	if len(parts) != 2 {
 		return nil
 	}
-	return s.lookupRPC(parts[0], parts[1])
+	return s.lookupRPCctx(parts[0], parts[1], ctx)
 }
 
 func (s *Sim) serverUnaryInt(layer string) grpc.UnaryServerInterceptor {
 	return func(ctx context.Context, req any, info *grpc.UnaryServerInfo, handler grpc.UnaryHandler) (any, error) {
 		id := -1
-		if rs := s.rpcByFullMethod(info.FullMethod); rs != nil {
+		if rs := s.rpcByFullMethod(info.FullMethod, ctx); rs != nil {
 			id = rs.r.ID
 		}
 		s.instant(id, 'h', 0, "int-enter", func(e *Event) {
@@ -332,7 +333,7 @@ func (s *Sim) serverUnaryInt(layer string) grpc.UnaryServerInterceptor {
 func (s *Sim) serverStreamInt(layer string) grpc.StreamServerInterceptor {
 	return func(srv any, ss grpc.ServerStream, info *grpc.StreamServerInfo, handler grpc.StreamHandler) error {
 		id := -1
-		if rs := s.rpcByFullMethod(info.FullMethod); rs != nil {
+		if rs := s.rpcByFullMethod(info.FullMethod, ss.Context()); rs != nil {
 			id = rs.r.ID
 		}
 		s.instant(id, 'h', 0, "int-enter", func(e *Event) {
